@@ -3,6 +3,7 @@ import Bardic.Driver.StdlibRun
 import Bardic.Driver.CodecRun
 import Bardic.Driver.IncludeRun
 import Bardic.Driver.GraphRun
+import Bardic.Parser.Strip
 /-!
 # `driver`: line protocol.  One JSON case per input line, one JSON answer per output line.
 -/
@@ -112,6 +113,13 @@ def handle (line : String) : String :=
     | "codec" => (runCodec j).compress
     | "include" => (runInclude j).compress
     | "graph" => (runGraph j).compress
+    | "strip" =>
+      let p := Bardic.Parser.stripStr (getStr j "line")
+      (jObj [("id", (j.getObjVal? "id").toOption.getD .null), ("content", .str p.1), ("comment", .str p.2)]).compress
+    | "dedent" =>
+      let ls := (getArr j "lines").map fun l => (jsonToStr l).toList
+      (jObj [("id", (j.getObjVal? "id").toOption.getD .null),
+             ("lines", .arr ((Bardic.Parser.dedent ls).map fun l => Json.str (String.ofList l)).toArray)]).compress
     | k => (jObj [("status", "unknown_kind"), ("kind", .str k)]).compress
 
 partial def loop (h : IO.FS.Stream) (out : IO.FS.Stream) : IO Unit := do
